@@ -123,6 +123,15 @@ def _request_facts(ctx, f):
     cfg = cfg_of(fn)
     facts = {}
     ids = [n for n in cfg.real_nodes() if isinstance(n.ast, ast.Assign) and isinstance(n.ast.value, ast.Call) and call_name(n.ast.value) == "self.get_next_system_counter"]
+    if not ids:
+        # the waiter table is keyed by system bytes of ONE sequence: an id taken from anywhere else can equal the id of an
+        # open transaction of the other sequence, and its registration replaces that caller's queue
+        regs = [c for n in cfg.real_nodes() for c in n.calls if call_name(c) == "self._get_queue_for_system" and c.args]
+        if regs:
+            src = rules.expand(fn, regs[0].args[0])
+            ctx.ob("C06.P1", q, False, f"the system bytes registered for the reply come from `{src[:70]}`, not from get_next_system_counter(): two id sequences feed one table of waiting "
+                   "requesters, so a control transaction can carry the system bytes of an open data request and take over its queue", key="id-source", where=f.where)
+            return None
     ctx.require(len(ids) == 1 and isinstance(ids[0].ast.targets[0], ast.Name), f"{q}: `x = self.get_next_system_counter()` not found exactly once")
     idvar = ids[0].ast.targets[0].id
     reg = [n for n in cfg.real_nodes() if any(c == "self._get_queue_for_system" for c in n.call_names())]
@@ -142,6 +151,8 @@ def check_requests(ctx):
         ctx.touch(f)
         q = f.qualname
         fx = _request_facts(ctx, f)
+        if fx is None:
+            continue
         fn = fx["fn"]
         cfg, idvar, reg, rem, snd = fx["cfg"], fx["idvar"], fx["reg"], fx["rem"], fx["snd"]
         ok = len(reg) == 1
@@ -363,6 +374,16 @@ def check_owners(ctx, rule="C06.P3"):
                                "(blocks received before a reconnect are never delivered, a waiting requester gets no reply, system bytes of outstanding requests are issued again)",
                                key=f"owner {d} in {mname}", where=m.where)
     ctx.floor("bindings of long-lived protocol state", n, 6)
+    # ... and each object has its own: a mutable class-level default for one of these names is one table / queue for every
+    # protocol object of the process (two links then reassemble each other's blocks, answer each other's requesters)
+    for cls in classes:
+        for name, expr in cls.consts.items():
+            if name in OWNED and (isinstance(expr, (ast.Dict, ast.List, ast.Set)) or (isinstance(expr, ast.Call) and (call_name(expr) or "").split(".")[-1] in ("dict", "list", "set", "Queue", "ByteQueue", "defaultdict"))):
+                in_ctor = any(isinstance(x, (ast.Assign, ast.AnnAssign)) and any((dotted(t) or "") == f"self.{name}" for t in (x.targets if isinstance(x, ast.Assign) else [x.target]))
+                              for k in cls.mro if "__init__" in k.methods for x in walk_no_nested(k.methods["__init__"].node))
+                ctx.ob(rule, f"{cls.name}.{name}", in_ctor, f"{name} has a class-level default but every object binds its own in the constructor" if in_ctor else
+                       f"`{name} = {norm(expr)}` at class level and no binding in the constructor: all {cls.name} objects of the process share one {name} - blocks, requesters or counters of one link are seen by another",
+                       key=f"per-object {name}", where=cls.where)
 
 
 def run(ctx):
